@@ -139,3 +139,43 @@ pub fn bad_numerical_coercion(l: &Dt, r: &Dt) -> Option<Dt> {
         _ => None,
     }
 }
+
+/// strict-null agreement: seeded positive (TryCast) / negatives (Cast, Not)
+pub enum Ex {
+    Col(bool),
+    Cast(Box<Ex>),
+    Not(Box<Ex>),
+    TryCast(Box<Ex>),
+    Lit(bool),
+}
+impl Ex {
+    pub fn nullable(&self, schema: &bool) -> Result<bool, String> {
+        match self {
+            Ex::Col(n) => Ok(*n && *schema),
+            Ex::Cast(e) | Ex::Not(e) => e.nullable(schema),
+            Ex::TryCast(_) => Ok(true),
+            Ex::Lit(n) => Ok(*n),
+        }
+    }
+    pub fn apply_children(&self, f: &mut dyn FnMut(&Ex)) {
+        match self {
+            Ex::Cast(e) | Ex::Not(e) | Ex::TryCast(e) => f(e),
+            _ => {}
+        }
+    }
+}
+pub mod pb {
+    use super::Ex;
+    pub fn any_child_null(e: &Ex) -> bool {
+        let mut r = false;
+        e.apply_children(&mut |c| r |= is_null(c));
+        r
+    }
+    pub fn is_null(e: &Ex) -> bool {
+        match e {
+            Ex::Lit(n) => *n,
+            Ex::Cast(_) | Ex::Not(_) | Ex::TryCast(_) => any_child_null(e),
+            _ => true,
+        }
+    }
+}
